@@ -91,6 +91,12 @@ fn die(msg: &str) -> ! {
 fn main() {
     let args = parse_args();
     let prop = props::find(&args.id).unwrap_or_else(|| die(&format!("unknown property {}", args.id)));
+    if std::env::var("VERIF_DUMP_DICT").is_ok() {
+        for t in vlib::gen::dict() {
+            println!("{}", vlib::engine::show_bytes(t, 80));
+        }
+        std::process::exit(0);
+    }
     if let Some(path) = &args.replay {
         std::process::exit(replay(&prop, path));
     }
